@@ -6,10 +6,14 @@ mod alloc_mon;
 mod common;
 mod myresp;
 mod conn;
+mod gen;
+mod model;
 
+mod c01;
 mod c04;
 mod c05;
 mod c15;
+mod c17;
 
 #[global_allocator]
 static GLOBAL: alloc_mon::CountingAlloc = alloc_mon::CountingAlloc;
@@ -25,10 +29,22 @@ fn main() {
     common::quiet_panics();
     match sub.as_str() {
         "noop" => {}
+        "dbg-dst" => {
+            use redis_sim::redis::{ExecutorDSTConfig, ExecutorDSTHarness};
+            let seed = args.seed;
+            let cfg = if args.get_str("preset") == Some("string_heavy") { ExecutorDSTConfig::string_heavy(seed) } else { ExecutorDSTConfig::chaos(seed) };
+            let mut h = ExecutorDSTHarness::new(cfg);
+            h.run(args.get_u64("ops", 5000) as usize);
+            for v in &h.result().invariant_violations {
+                println!("{}", v);
+            }
+        }
+        "c01-model" => c01::model_leg(&args),
         "c04-pipeline" => c04::pipeline_leg(&args),
         "c04-malformed" => c04::malformed_leg(&args),
         "c05-txn" => c05::txn_leg(&args),
         "c05-atomic" => c05::atomic_leg(&args),
+        "c17-unchanged" => c17::leg(&args),
         "c15-parse" => c15::parse_leg(&args),
         "c15-frag" => c15::frag_leg(&args),
         "c15-reply" => c15::reply_leg(&args),
